@@ -199,6 +199,17 @@ Finish(s, f, hashId, refId, size, nbytes, m) ==
   /\ finished' = Put(finished, f, ("hash" :> hashId) @@ m)
   /\ UNCHANGED <<clen, content, fsess, salt, status, failed, xorbs, stored, sessPut, shardOpen, recs, dec, up, cache>>
 
+(* the top-level API (data_client::upload_async) returns pointers only: hash and size clauses of C03 *)
+Pointer(s, f, hashId, refId, size, nbytes) ==
+  /\ f \in DOMAIN content /\ fsess[f] = s /\ f \notin DOMAIN finished
+  /\ LET ids == content[f] IN
+     /\ Chk("C03", hashId = refId /\ size = Bytes(ids) /\ nbytes = Bytes(ids))
+     /\ Chk("C03", \/ ids = <<>> /\ "empty-file-salt" \in Relax /\ \A p \in ptrs : p[1] = ids <=> p[3] = hashId
+                   \/ \A p \in ptrs : (p[1] = ids /\ p[2] = salt[s]) <=> p[3] = hashId)
+     /\ ptrs' = ptrs \cup {<<ids, salt[s], hashId, size>>}
+  /\ finished' = Put(finished, f, [hash |-> hashId])
+  /\ UNCHANGED <<clen, content, fsess, salt, status, failed, xorbs, stored, sessPut, shardOpen, recs, dec, up, cache>>
+
 FilesOf(s) == {f \in DOMAIN finished : fsess[f] = s}
 RECURSIVE SumField(_, _)
 SumField(fs, fld) == IF fs = {} THEN 0 ELSE LET f == CHOOSE f \in fs : TRUE IN finished[f][fld] + SumField(fs \ {f}, fld)
@@ -215,6 +226,17 @@ Finalize(s, m) ==
                 /\ m.dc = SumField(FilesOf(s), "dc") /\ m.pc = SumField(FilesOf(s), "pc")
                 /\ m.xorb_bytes = up[s].xorb /\ m.shard_bytes = up[s].shard
                 /\ m.uploaded = up[s].xorb + up[s].shard)
+  /\ status' = [status EXCEPT ![s] = "ok"]
+  /\ UNCHANGED <<clen, content, fsess, salt, failed, xorbs, stored, sessPut, shardOpen, recs, finished, dec, up, ptrs, cache>>
+
+(* upload_async returned Ok: what Finalize requires of the store, without the metrics (the API does not return them) *)
+ApiDone(s) ==
+  /\ s \in DOMAIN status /\ status[s] = "open"
+  /\ Chk("C16", ~failed[s])
+  /\ Chk("C16", \A f \in FilesOf(s) : /\ finished[f].hash \in DOMAIN recs
+                                        /\ \A i \in 1..Len(recs[finished[f].hash]) : recs[finished[f].hash][i][1] \in stored)
+  /\ Chk("C01", \A f \in FilesOf(s) : finished[f].hash \in DOMAIN recs)
+  /\ Chk("C01", \A f \in DOMAIN content : fsess[f] = s => f \in DOMAIN finished)       \* one pointer per file
   /\ status' = [status EXCEPT ![s] = "ok"]
   /\ UNCHANGED <<clen, content, fsess, salt, failed, xorbs, stored, sessPut, shardOpen, recs, finished, dec, up, ptrs, cache>>
 
